@@ -74,7 +74,9 @@ def check_case(case, workdir=None):  # pylint: disable=too-many-branches,too-man
                 if rc != 0:
                     raise Fail(f'{hdr} does not compile on its own with {cc}: '
                                f'{farm.first_diag(out)}\n{out[:2000]}',
-                               f'standalone:{hdr.split("_")[-1]}:{farm.norm_diag(farm.first_diag(out))}')
+                               'standalone:%s:%s' % (
+                                   'shell.hh' if hdr == driver.shell_name(spec) + '.hh' else
+                                   hdr.split('_')[-1], farm.norm_diag(farm.first_diag(out))))
         # (b) multiple inclusion, drawn order, diamond
         order = [headers[i % len(headers)] for i in case['order']] or headers
         pr.write('dia_a.hh', f'#include "{driver.shell_name(spec)}.hh"\n')
